@@ -2,6 +2,7 @@ package main
 
 import (
 	"fmt"
+	"go/token"
 	"go/types"
 	"sort"
 	"strings"
@@ -333,6 +334,10 @@ func (c *FC) exact(rule string, allowed []Atom) {
 			}
 		}
 		key := fmt.Sprintf("%s/%s/reject/%s", rule, c.name, re.RejectWhen.String())
+		if !matched && c.isRequiredStepError(re.If.in) {
+			c.r.ok(rule, key, c.p.instrPos(re.If.in), "propagates the error of a call that every success path passes (not a new precondition)")
+			continue
+		}
 		if matched {
 			c.r.ok(rule, key, c.p.instrPos(re.If.in), "rejection condition is in the documented table")
 		} else {
@@ -376,4 +381,44 @@ func sortStrings(s []string) { sort.Strings(s) }
 func fieldName(fa *ssa.FieldAddr) string {
 	st := fa.X.Type().Underlying().(*types.Pointer).Elem().Underlying().(*types.Struct)
 	return st.Field(fa.Field).Name()
+}
+
+// isRequiredStepError: the branch tests `err ==/!= nil` where err is the error
+// result of a call that every success path of the function passes through. Such a
+// rejection only propagates the failure of a step the function performs anyway.
+func (c *FC) isRequiredStepError(iff *ssa.If) bool {
+	bo, ok := iff.Cond.(*ssa.BinOp)
+	if !ok || (bo.Op != token.EQL && bo.Op != token.NEQ) {
+		return false
+	}
+	var ev ssa.Value
+	if k, ok := bo.Y.(*ssa.Const); ok && k.Value == nil {
+		ev = bo.X
+	} else if k, ok := bo.X.(*ssa.Const); ok && k.Value == nil {
+		ev = bo.Y
+	}
+	if ev == nil || !isErrorType(ev.Type()) {
+		return false
+	}
+	var call *ssa.Call
+	switch v := ev.(type) {
+	case *ssa.Call:
+		call = v
+	case *ssa.Extract:
+		call, _ = v.Tuple.(*ssa.Call)
+	}
+	if call == nil {
+		return false
+	}
+	succ := c.successReturns()
+	if len(succ) == 0 {
+		return false
+	}
+	fi := c.p.info(c.fn)
+	for _, s := range succ {
+		if fi.entryReachesAvoiding(s, []ssa.Instruction{call}) {
+			return false
+		}
+	}
+	return true
 }
